@@ -35,20 +35,20 @@ BUILT={
         "Both directions: what Sign emits must verify independently; what Verify accepts must be acceptable to the independent verifier; valid canonical signatures made outside the library must be accepted.",
         "keys are generated per run with crypto/rand; the model's s.6.2 type list follows RFC 6840 s.5.1"),
  "C11":("exploration","runtime monitor: independent RFC 8945 digest as oracle; explicit-now hook for the fudge window; exhaustive single-bit flips of short signed messages, field/context/structure alterations, envelope chains made by library and harness, and the chain a Server's ResponseWriter emits through Transfer.Out",
-        "Soundness is decided per altered octet string by recomputing the HMAC independently; the window is decided at t, t+-fudge, t+-(fudge+1) without reading the wall clock.",
-        "uses the verif-tagged accessor VerifTsigVerify(now); TSIG RR class on the wire not part of the acceptance condition"),
+        "Soundness is decided per altered octet string by recomputing the HMAC independently; the window is decided at t, t+-fudge, t+-(fudge+1) without reading the wall clock; the exported TsigVerify/TsigGenerate pairs are driven at the real time too, 5 s inside and outside the window, every verdict bracketed by two clock readings.",
+        "uses the verif-tagged accessor VerifTsigVerify(now) for the boundary seconds; the exported entry points only where a 5 s margin makes the clock irrelevant (else undecided); TSIG RR class on the wire not part of the acceptance condition"),
  "C12":("fault_enumeration","runtime monitor: fault enumeration over simulated streams (every split point, EOF/error at every offset, oversize writes, scripted stale/foreign datagram replies) + concurrent unique-request workload against real loopback servers with scribbled recycled buffers, offline no-mixing/exactly-once check (UDP, TCP, TLS, through reader/writer decorators; handlers compare RemoteAddr with the declared source address), wildcard IPv4/IPv6/dual-stack UDP servers, race detector",
         "Framing and ID handling are enumerated over deterministic in-memory transports; cross-talk is decided offline over the merged client/handler log of uniquely tagged requests; the poolPut hook scribbles every recycled UDP buffer so aliasing is seen deterministically.",
         "in-memory transports model short reads, not kernel behaviour; 20 s watchdog decides 'hang'"),
  "C13":("exploration","runtime monitor: steered schedules through build-tag hook gates (Shutdown raced against every hook point in both release orders), held handlers, context expiry, misuse/restart/failed-start scripts, transport pauses, a listener that fails for good while connections are open; offline checker over a logical-clock event log; goroutine/connection leak probes; race detector",
         "Explores orderings at hook granularity (not instruction granularity) on 5 transports; each scenario's event log is judged offline against the statement; distinct observed event orders are counted in the evidence.",
-        "liveness restated as bounded progress (15 s for operations that take microseconds); hooks sit outside critical sections"),
+        "liveness restated as bounded progress (15 s for operations that take microseconds); hooks sit outside critical sections; windows without a hook are reached only by the unsteered start/Shutdown storms (thousands of cycles per run)"),
  "C14":("exploration","runtime monitor: per-packet exactly-one-outcome oracle with hook-signalled quiescence on simulated UDP/TCP servers under the default and a user-supplied accept policy (recycled buffers scribbled, connections filled up to MaxTCPQueries); wire-label longest-suffix routing reference (own and default mux); porcupine linearizability check of concurrent Handle/HandleRemove/ServeDNS histories; race detector",
         "Admission decided per packet against a reference policy; routing against an independent suffix reference; the mux table is the one shared object, checked for linearizability on recorded histories.",
-        "DS routing: any registered strict ancestor accepted (statement leaves it open)"),
+        "DS routing: any registered strict ancestor accepted (statement leaves it open); a message delivered after the socket reported a transient non-timeout failure counts as received"),
  "C15":("fault_enumeration","runtime monitor: the harness plays the primary over a simulated stream: all envelope compositions (n<=6) of AXFR/IXFR streams with an independently computed RFC 8945 MAC chain, faults injected at every envelope index and EOF at every octet; oracle over delivered envelopes, channel and connection close log",
         "Every fault class of the statement is injected at every position of small transfers; good runs compare delivered with transmitted records byte-exact.",
-        "envelopes signed at the real clock with fudge 300 (far from the boundary)"),
+        "envelopes signed at the real clock with fudge 300 (far from the boundary); connection closure is observed at the primary (simulated stream close count, hang-up on real sockets incl. transfers that dial for themselves)"),
  "C16":("exploration","runtime monitor: object-graph address-range walker (copy vs original, decoded vs input buffer), deep snapshots around read-only operations, Go race detector on concurrent read-only use",
         "Aliasing is decided from the actual addresses of every reachable slice/pointer/map, not from sampled writes; read-only operations are bracketed by deep snapshots; concurrent use runs under -race.",
         "reflect-based walker sees exported and unexported fields; strings exempt for Copy"),
